@@ -213,7 +213,12 @@ claim("C10",
       "induction against the generated rule constants); C10_configured_names (a name counts iff it is a configured "
       "name, bare or qualified with exactly its module path); C10_message_entry (for ANY parse tree of canonical "
       "shape -- optional target, any number of key-values, message literal -- the entry is at the first character "
-      "of the message value, reference read from the literal's text). Tie and violation search: files rendered from "
+      "of the message value, reference read from the literal's text); C10_first_statement_found -- END TO END from "
+      "TEXT, no parse tree in the hypotheses: for any layout, configured name (any XID_START/_ char + any XID_CONTINUE "
+      "chars), `!(`, any layout, a string literal of any plain characters and backslash escapes, followed by ANYTHING, "
+      "as first statement of a file in message style, the finder (generated grammar through Peg.v, then Glue.v) "
+      "returns as first entry exactly the byte offset / line / column of the first character of the literal's value "
+      "with the reference the literal holds. Tie and violation search: files rendered from "
       "the canonical file language with an oracle computed from the property text alone, compared with the "
       "implementation's finder, the extracted model, and --check / edit of the real binary.",
       "Known finding F12 (comment opener inside an ordinary string literal hides following statements) is replayed "
